@@ -228,7 +228,12 @@ def check_case(root, spec, pp, cfg, out, armed):
             return
     # (d) globmatch(REALPATH) applies the same rule to a given path
     model = T.Model(root)
-    cands = [p for p, _d, _l in model.all_entries(follow=True, max_depth=4)]
+    try:
+        cands = [p for p, _d, _l in model.all_entries(follow=True, max_depth=4)]
+    except util.HarnessBudget:
+        # the harness's own enumeration of candidates through cyclic links is too large: clause (d) is skipped for this tree
+        out.stats['candidate_enumeration_skipped'] += 1
+        return res
     fd = os.open(root, os.O_RDONLY)
     try:
       for ci, c in enumerate(cands):
